@@ -10,6 +10,8 @@ import FlacModel.Model.Readers
 import FlacModel.Model.Writers
 import FlacModel.Model.Md5
 import FlacModel.Model.Finalize
+import Driver.Gen
+import FlacModel.Model.FileDecode
 
 open Flac
 
@@ -65,7 +67,9 @@ def streamOutcome (bytes : List Nat) (limit : Nat) (profile : Profile) : String 
 def opStreamread (f : Fields) (profile : Profile) : String :=
   match hexToBytes (f.get "bytes") with
   | none => "model-error bad-hex"
-  | some bytes => "ok " ++ streamOutcome bytes (((f.get "limit").toNat?).getD 100000) profile
+  | some bytes =>
+    let o := streamOutcome bytes (((f.get "limit").toNat?).getD 100000) profile
+    if o.startsWith "panic" then o else "ok " ++ o
 
 /-- the model reads the stream the implementation produced (field `stream=` of its outcome) -/
 def opStreamrw (f : Fields) (impl : Fields) (implHead : String) (profile : Profile) : String :=
@@ -359,6 +363,38 @@ def specCheckFile (file : List Nat) (pcm : List Int) (ch : Nat) : String :=
       else if afterFirstPlaceholder.any (· != .placeholder) then "FAIL placeholder-before-defined"
       else "ok"
 
+/-! ### whole files through the readers -/
+
+def md5Field (m : List Nat) : String := if m.all (· == 0) then "none" else bytesToHex m
+
+def opDecfile (f : Fields) (profile : Profile) : String :=
+  match hexToBytes (f.get "bytes") with
+  | none => "model-error bad-hex"
+  | some bytes =>
+    match fileDecode profile bytes with
+    | .error e => failStr e ++ " stage=open"
+    | .ok run =>
+      match run.stop with
+      | some (.panic s) => "panic " ++ s
+      | stop =>
+        let si := run.head.si
+        let pcm := run.frames.flatMap interleave
+        let metaStr := s!"rate={si.rate} ch={si.channels} bps={si.bps} total={if si.total == 0 then "none" else toString si.total} md5={md5Field si.md5}"
+        let reader := f.get "reader"
+        let be := f.get "endian" == "be"
+        let payload := if reader == "byte" then s!"bytes={bytesToHex (pcm.flatMap (sampleBytes (bytesPerSample si.bps) be))}" else s!"pcm={joinInts pcm}"
+        if reader == "verify" then
+          match stop with
+          | some e => failStr e
+          | none =>
+            if si.md5.all (· == 0) then "ok verified=NoMD5"
+            else if Md5.md5 (pcm.flatMap (sampleBytes (bytesPerSample si.bps) false)) == si.md5 then "ok verified=MD5Match"
+            else "ok verified=MD5Mismatch"
+        else
+          match stop with
+          | none => s!"ok {metaStr} {payload}"
+          | some e => s!"{failStr e} {metaStr} {payload}"
+
 def runCase (line : String) : String :=
   let parts := line.splitOn "\t"
   let caseLine := parts.headD ""
@@ -370,6 +406,7 @@ def runCase (line : String) : String :=
   | "streamrw" => opStreamrw f impl implHead profile ++ " @@ -"
   | "encframe" => opEncframe f impl implHead profile
   | "hist" => opHist f ++ " @@ -"
+  | "decfile" => opDecfile f profile ++ " @@ -"
   | "wr" =>
     if implHead != "ok" || impl.get "file" == "" then "model-skip @@ -" else
     let spec := match hexToBytes (impl.get "file") with
@@ -378,6 +415,53 @@ def runCase (line : String) : String :=
     opWr f implHead ++ opWrFinalize f impl ++ " @@ " ++ spec
   | _ => "model-skip @@ -"
 
+/-! ### generators -/
+
+open Flac.Gen2 in
+def genValidCases (seed n : Nat) : List String := Id.run do
+  let mut rng : Rng := ⟨UInt64.ofNat (seed * 2654435761 + 12345)⟩
+  let mut out : List String := []
+  for i in [0:n] do
+    let asFile := i % 3 == 2
+    if !asFile then
+      -- a single subset frame through the stream reader
+      let (m, r) := (genFrame true { rate := 44100, channels := 2, bps := 16, maxBlock := 65535 } false).run rng
+      rng := r
+      let bytes := Spec.serialize m.frame
+      out := s!"streamread bytes={bytesToHex bytes} exp={m.frame.hdr.rate}/{m.frame.hdr.assign.count}/{m.frame.hdr.bps}/{joinInts (interleave m.channels)} kind=valid" :: out
+    else
+      -- a file with STREAMINFO and 1-3 frames that may refer to it
+      let ((si, nf, known), r) := (do
+        let bps ← (do let t ← chance 1 2; if t then pick [8, 12, 16, 20, 24, 32] else do let b ← below 29; pure (b + 4))
+        let ch ← (do let st ← chance 1 2; if st then pure 2 else do let c ← below 8; pure (c + 1))
+        let rate ← pick [44100, 48000, 8000, 96000, 12345, 655350, 1, 1048575, 192000]
+        let nf ← below 3
+        let known ← chance 2 3
+        pure (({ rate, channels := ch, bps, maxBlock := 4096 } : SInfo), nf + 1, known) : G _).run rng
+      rng := r
+      let mut frames : List Made := []
+      for _ in [0:nf] do
+        let (m, r) := (genFrame false si true).run rng
+        rng := r
+        frames := frames ++ [m]
+      -- non-final frames must be longer than 14 samples: regenerate lengths by dropping short ones
+      let framesK : List Made := match frames.reverse with
+        | [] => []
+        | last :: revInit => (revInit.filter fun m => m.frame.hdr.blockSize > 14).reverse ++ [last]
+      let pcmCh : List (List Int) := (List.range si.channels).map fun c => framesK.flatMap fun m => m.channels.getD c []
+      let pcm := interleave pcmCh
+      let total := (framesK.map fun m => m.frame.hdr.blockSize).foldl (· + ·) 0
+      let md5 := Md5.md5 (pcm.flatMap (sampleBytes (bytesPerSample si.bps) false))
+      let wrongMd5 := i % 21 == 20
+      let noMd5 := i % 15 == 14
+      let md5w := if noMd5 then List.replicate 16 0 else if wrongMd5 then md5.map (fun b => (b + 1) % 256) else md5
+      let head := fileHead si (if known then total else 0) md5w 16
+      let body := framesK.flatMap fun m => Spec.serialize m.frame
+      let reader := ["byte", "sample", "iter", "chan", "verify"].getD (i / 3 % 5) "sample"
+      let verdict := if noMd5 then "NoMD5" else if wrongMd5 then "MD5Mismatch" else "MD5Match"
+      out := s!"decfile reader={reader} endian={if i % 2 == 0 then "le" else "be"} chunk={[1, 7, 4096].getD (i % 3) 64} bytes={bytesToHex (head ++ body)} bps={si.bps} exp={joinInts pcm} expverify={verdict} kind=valid" :: out
+  return out.reverse
+
 partial def loop (h : IO.FS.Stream) (out : IO.FS.Stream) : IO Unit := do
   let line ← h.getLine
   if line.isEmpty then return ()
@@ -385,7 +469,12 @@ partial def loop (h : IO.FS.Stream) (out : IO.FS.Stream) : IO Unit := do
   if l.isEmpty || l.startsWith "#" then out.putStrLn l else out.putStrLn (runCase l)
   loop h out
 
-def main : IO Unit := do
-  let i ← IO.getStdin
-  let o ← IO.getStdout
-  loop i o
+def main (args : List String) : IO Unit := do
+  match args with
+  | ["gen", "valid", seed, n] =>
+    for l in genValidCases (seed.toNat?.getD 1) (n.toNat?.getD 10) do
+      IO.println l
+  | _ =>
+    let i ← IO.getStdin
+    let o ← IO.getStdout
+    loop i o
